@@ -391,6 +391,21 @@ pub fn run(ctx: &Ctx) -> Collector {
         }
     }
     let n_short = strings.len();
+    // the same short strings inside realistic contexts (a scheme or path in front, an extension behind, a long
+    // run in front): escaping must not depend on what the string looks like or how long it is
+    let shorts: Vec<String> = strings.clone();
+    let contexts: [(&str, &str); 7] = [("data:", ""), ("data:image/svg+xml;utf8,", ""), ("https://example.com/", ".png"), ("./", ""), ("#", ""), ("", ".svg"), ("", "")];
+    for (ci, (pre, post)) in contexts.iter().enumerate() {
+        for t in &shorts {
+            if ci == contexts.len() - 1 {
+                // last context: a 300-character run in front (length-dependent handling)
+                strings.push(format!("{}{}", "x".repeat(300), t));
+            } else {
+                strings.push(format!("{}{}{}", pre, t, post));
+            }
+        }
+    }
+    let n_short = strings.len() - n_short + n_short;
     for s in [
         "https://example.com/logo.png",
         "https://example.com/i?a=1&b=2",
@@ -415,7 +430,7 @@ pub fn run(ctx: &Ctx) -> Collector {
             col.violation((30, i as u64), format!("C12/{}", k), format!("image string {:?}: {}", s, w), json!({"kind": "svg-image", "image": s}));
         }
     });
-    col.space(json!({"name": "image strings", "cases": strings.len(), "what": format!("all {} strings of length <= 3 over {{a & < > \" ' space ; #}} + {} realistic URLs, data URIs, paths and injection attempts", n_short, strings.len() - n_short), "exhaustive": true}));
+    col.space(json!({"name": "image strings", "cases": strings.len(), "what": format!("all 820 strings of length <= 3 over {{a & < > \" ' space ; #}}, alone and inside 7 contexts (data:, data:image/svg+xml;utf8, URL + extension, ./, #, extension only, a 300-character run in front) = {} strings, + {} realistic URLs, data URIs, paths and injection attempts", n_short, strings.len() - n_short), "exhaustive": true}));
     col.sample(json!({"kind": "svg-image", "image": "a&<"}));
     col
 }
